@@ -1,6 +1,6 @@
 (* GeomProofs.v — proofs about coq/Model/Geom.v (property C02). *)
 From Coq Require Import List ZArith Bool String Ascii Lia Arith.
-From MPV Require Import Model.Wire Model.Geom.
+From MPV Require Import Model.Wire Model.Geom Gen.Grammar.
 Import ListNotations.
 Open Scope list_scope.
 
@@ -1105,3 +1105,609 @@ Lemma ex_run_case :
   = inr (h, [TLParen; TLeaf true 1; TColon; TLeaf false 2; TRParen; TLeaf true 3;
              TLParen; TLeaf true 4; TColon; TLeaf false 5; TRParen]).
 Proof. eexists. vm_compute. reflexivity. Qed.
+
+Close Scope Z_scope.
+(* ------------------------------------------------------------------ the source grammar (generated table) *)
+Lemma strs_eqb_eq : forall a b, strs_eqb a b = true -> a = b.
+Proof.
+  induction a; destruct b; simpl; intros H; try discriminate; [reflexivity|].
+  apply andb_true_iff in H. destruct H as [H1 H2].
+  apply String.eqb_eq in H1. subst. f_equal. apply IHa; exact H2.
+Qed.
+
+Lemma strs_eqb_refl : forall a, strs_eqb a a = true.
+Proof. induction a; simpl; [reflexivity | rewrite String.eqb_refl; exact IHa]. Qed.
+
+Lemma gprod_eqb_eq : forall p q, gprod_eqb p q = true -> p = q.
+Proof.
+  intros [l r] [l' r']. unfold gprod_eqb. simpl. intros H.
+  apply andb_true_iff in H. destruct H as [H1 H2].
+  apply String.eqb_eq in H1. apply strs_eqb_eq in H2. subst. reflexivity.
+Qed.
+
+(* the translator obligation: the geometry productions the model accounts for are exactly the geometry
+   productions of the generated table (a change of CellParser's grammar breaks this equation) *)
+Lemma grammar_skeleton : geom_table cell_productions = map fst geom_rules.
+Proof. vm_compute. reflexivity. Qed.
+
+Lemma rule_lookup_in : forall p tbl, In p (map fst tbl) -> exists r, rule_lookup p tbl = Some r /\ In r (map snd tbl).
+Proof.
+  intros p tbl. induction tbl as [|[q r] tbl IH]; simpl; intros H; [contradiction|].
+  destruct (gprod_eqb p q) eqn:E.
+  - exists r. split; [reflexivity | left; reflexivity].
+  - destruct H as [H|H].
+    + subst q. exfalso. clear -E. destruct p as [l rr]. unfold gprod_eqb in E. simpl in E.
+      rewrite String.eqb_refl, strs_eqb_refl in E. discriminate E.
+    + destruct (IH H) as (r' & H1 & H2). exists r'. split; [exact H1 | right; exact H2].
+Qed.
+
+(* a well-formed inner node with a geometry left-hand side is an instance of one of the listed productions *)
+Lemma node_rule : forall l r ks, pwf cell_productions (PNode l r ks) = true -> geom_lhs l = true ->
+  In (l, r) (map fst geom_rules).
+Proof.
+  intros l r ks H Hl. cbn [pwf] in H.
+  apply andb_true_iff in H. destruct H as [H _]. apply andb_true_iff in H. destruct H as [H _].
+  apply existsb_exists in H. destruct H as (q & Hin & Hq). apply gprod_eqb_eq in Hq. subst q.
+  rewrite <- grammar_skeleton. unfold geom_table. apply filter_In. split; [exact Hin | exact Hl].
+Qed.
+
+Lemma node_kids : forall G l r ks, pwf G (PNode l r ks) = true -> map proot ks = r /\ Forall (fun k => pwf G k = true) ks.
+Proof.
+  intros G l r ks H. cbn [pwf] in H.
+  apply andb_true_iff in H. destruct H as [H H3]. apply andb_true_iff in H. destruct H as [_ H2].
+  split; [apply strs_eqb_eq; exact H2 | apply Forall_forall; apply forallb_forall; exact H3].
+Qed.
+
+(* no production has a terminal on its left: a subtree whose root is a terminal is that token *)
+Definition is_lhs (s : string) : bool := existsb (fun p => String.eqb s (fst p)) cell_productions.
+
+Lemma wf_terminal : forall t, pwf cell_productions t = true -> is_lhs (proot t) = false ->
+  exists k, t = PTok k.
+Proof.
+  intros [k|l r ks] H Hn; [exists k; reflexivity|]. exfalso.
+  cbn [pwf] in H. apply andb_true_iff in H. destruct H as [H _]. apply andb_true_iff in H. destruct H as [H _].
+  apply existsb_exists in H. destruct H as (q & Hin & Hq). apply gprod_eqb_eq in Hq. subst q.
+  unfold is_lhs in Hn. simpl proot in Hn.
+  assert (existsb (fun p => String.eqb l (fst p)) cell_productions = true).
+  { apply existsb_exists. exists (l, r). split; [exact Hin | apply String.eqb_refl]. }
+  congruence.
+Qed.
+
+Fixpoint ptree_ind' (P : ptree -> Prop)
+  (Htok : forall k, P (PTok k))
+  (Hnode : forall l r ks, Forall P ks -> P (PNode l r ks))
+  (t : ptree) : P t :=
+  match t with
+  | PTok k => Htok k
+  | PNode l r ks =>
+      Hnode l r ks ((fix go (ks : list ptree) : Forall P ks :=
+                       match ks with
+                       | [] => Forall_nil P
+                       | k :: ks' => Forall_cons k (ptree_ind' P Htok Hnode k) (go ks')
+                       end) ks)
+  end.
+
+Definition is_pad (t : stok) : bool := match t with SPad _ => true | _ => false end.
+
+Lemma strip_pads : forall a b, forallb is_pad a = true -> strip (a ++ b) = strip b.
+Proof.
+  induction a as [|x a IH]; intros b H; [reflexivity|].
+  simpl in H. apply andb_true_iff in H. destruct H as [Hx Ha].
+  destruct x; try discriminate. simpl. apply IH. exact Ha.
+Qed.
+
+Lemma strip_pads_nil : forall a, forallb is_pad a = true -> strip a = [].
+Proof. intros a H. rewrite <- (app_nil_r a). rewrite strip_pads by exact H. reflexivity. Qed.
+
+(* the list does not end with "#" *)
+Fixpoint ends_hash (ts : list stok) : bool :=
+  match ts with
+  | [] => false
+  | [SHash] => true
+  | _ :: r => ends_hash r
+  end.
+
+Lemma ends_hash_cons : forall x r, r <> [] -> ends_hash (x :: r) = ends_hash r.
+Proof. intros x [|y r] H; [congruence|]. destruct x; reflexivity. Qed.
+
+Lemma ends_hash_app : forall a b, b <> [] -> ends_hash (a ++ b) = ends_hash b.
+Proof.
+  induction a as [|x a IH]; intros b Hb; [reflexivity|].
+  simpl app. rewrite ends_hash_cons; [apply IH; exact Hb|].
+  destruct a; simpl; [exact Hb | discriminate].
+Qed.
+
+Definition not_cell_start (r : list stok) : bool :=
+  match r with SNum true _ :: _ => false | _ => true end.
+
+Lemma strip_hash_other : forall r, not_cell_start r = true -> strip (SHash :: r) = THash :: strip r.
+Proof. intros [|[[] m| | | | |] r] H; try discriminate; reflexivity. Qed.
+
+Lemma strip_app : forall a b, ends_hash a = false -> strip (a ++ b) = strip a ++ strip b.
+Proof.
+  intros a. remember (List.length a) as n eqn:Hn. revert a Hn.
+  induction n as [n IH] using lt_wf_ind. intros a Hn b He.
+  destruct a as [|x a]; [reflexivity|].
+  assert (Hrec : forall a', (List.length a' < n)%nat -> ends_hash a' = false ->
+                            strip (a' ++ b) = strip a' ++ strip b).
+  { intros a' Hl He'. apply (IH (List.length a') Hl a' eq_refl b He'). }
+  assert (Htail : ends_hash a = false).
+  { destruct a as [|y a']; [reflexivity|]. rewrite <- (ends_hash_cons x (y :: a')) by discriminate. exact He. }
+  assert (Hlen : (List.length a < n)%nat) by (subst n; simpl; lia).
+  pose proof (Hrec a Hlen Htail) as Ha.
+  destruct x.
+  - simpl. rewrite Ha. reflexivity.
+  - (* SHash *)
+    destruct a as [|y a']; [discriminate He|].
+    destruct (not_cell_start (y :: a')) eqn:Hy.
+    + rewrite <- app_comm_cons. rewrite !strip_hash_other; [| exact Hy | destruct y as [[] m| | | | |]; try discriminate; reflexivity].
+      rewrite Ha. reflexivity.
+    + destruct y as [[] m| | | | |]; try discriminate.
+      simpl. f_equal. apply Hrec; [subst n; simpl; lia|].
+      destruct a' as [|z a'']; [reflexivity|].
+      rewrite <- (ends_hash_cons (SNum true m) (z :: a'')) by discriminate. exact Htail.
+  - simpl. rewrite Ha. reflexivity.
+  - simpl. rewrite Ha. reflexivity.
+  - simpl. rewrite Ha. reflexivity.
+  - simpl. exact Ha.
+Qed.
+
+Lemma hash_neg_app : forall a b, hash_neg (a ++ b) = false -> hash_neg a = false /\ hash_neg b = false.
+Proof.
+  induction a as [|x a IH]; intros b H; [split; [reflexivity | exact H]|].
+  simpl app in H. cbn [hash_neg] in H. apply orb_false_iff in H. destruct H as [H1 H2].
+  destruct (IH b H2) as [Ha Hb]. split; [|exact Hb].
+  cbn [hash_neg]. rewrite Ha, orb_false_r.
+  destruct x; try reflexivity. destruct a as [|y a']; [reflexivity|]. exact H1.
+Qed.
+
+(* the padding productions of the generated table *)
+Lemma padding_table :
+  filter (fun p => String.eqb (fst p) "padding") cell_productions =
+  [("padding", ["padding"; "&"]); ("padding", ["padding"; "COMMENT"]); ("padding", ["padding"; "DOLLAR_COMMENT"]);
+   ("padding", ["padding"; "SPACE"]); ("padding", ["COMMENT"]); ("padding", ["DOLLAR_COMMENT"]); ("padding", ["SPACE"])]%string.
+Proof. vm_compute. reflexivity. Qed.
+
+Lemma node_in : forall l r ks, pwf cell_productions (PNode l r ks) = true -> In (l, r) cell_productions.
+Proof.
+  intros l r ks H. cbn [pwf] in H.
+  apply andb_true_iff in H. destruct H as [H _]. apply andb_true_iff in H. destruct H as [H _].
+  apply existsb_exists in H. destruct H as (q & Hin & Hq). apply gprod_eqb_eq in Hq. subst q. exact Hin.
+Qed.
+
+Ltac kids ks H :=
+  destruct ks as [|?k [|?k [|?k [|?k [|?k ?ks]]]]]; try discriminate H; cbn [map] in H; injection H; clear H; intros.
+
+Ltac terminal k Hwf :=
+  let Hk := fresh "Hk" in
+  let tk := fresh "tk" in
+  match goal with
+  | Hr : proot k = ?c |- _ =>
+      destruct (wf_terminal k Hwf) as [tk Hk];
+      [rewrite Hr; vm_compute; reflexivity |
+       subst k; cbn [proot] in Hr;
+       destruct tk as [? ?| | | | |[]]; try discriminate Hr; clear Hr]
+  end.
+
+Lemma pad_tree : forall t, pwf cell_productions t = true -> proot t = "padding"%string ->
+  forallb is_pad (pyield t) = true.
+Proof.
+  induction t as [k|l r ks IH] using ptree_ind'; intros Hwf Hroot.
+  - destruct k as [? ?| | | | |[]]; discriminate Hroot.
+  - cbn [proot] in Hroot. subst l.
+    pose proof (node_in _ _ _ Hwf) as Hin.
+    assert (Hp : In ("padding"%string, r) (filter (fun p => String.eqb (fst p) "padding") cell_productions)).
+    { apply filter_In. split; [exact Hin | reflexivity]. }
+    rewrite padding_table in Hp.
+    destruct (node_kids _ _ _ _ Hwf) as [Hroots Hkids].
+    cbn [In] in Hp.
+    repeat (destruct Hp as [Hp|Hp]; [injection Hp as Hr; rewrite <- Hr in *; clear Hr|]); try contradiction;
+      kids ks Hroots; cbn [pyield flat_map]; rewrite ?app_nil_r;
+      repeat match goal with
+             | H : Forall _ (_ :: _) |- _ => inversion H; subst; clear H
+             end.
+    all: rewrite ?forallb_app; repeat (apply andb_true_iff; split).
+    all: match goal with
+         | Hr : proot ?kk = "padding"%string,
+           IHk : pwf _ ?kk = true -> _ -> forallb is_pad (pyield ?kk) = true
+           |- forallb is_pad (pyield ?kk) = true => apply IHk; assumption
+         | Hw : pwf cell_productions ?kk = true, Hr : proot ?kk = _
+           |- forallb is_pad (pyield ?kk) = true => terminal kk Hw; reflexivity
+         end.
+Qed.
+
+Lemma union_tree : forall t, pwf cell_productions t = true -> proot t = "union"%string ->
+  exists pads, pyield t = SColon :: pads /\ forallb is_pad pads = true.
+Proof.
+  induction t as [k|l r ks IH] using ptree_ind'; intros Hwf Hroot.
+  - destruct k as [? ?| | | | |[]]; discriminate Hroot.
+  - cbn [proot] in Hroot. subst l.
+    pose proof (node_rule _ _ _ Hwf eq_refl) as Hin.
+    destruct (node_kids _ _ _ _ Hwf) as [Hroots Hkids].
+    cbn [map fst geom_rules In] in Hin.
+    repeat (destruct Hin as [Hin|Hin];
+            [try discriminate Hin; injection Hin as Hr; rewrite <- Hr in *; clear Hr|]); try contradiction;
+      kids ks Hroots; cbn [pyield flat_map]; rewrite ?app_nil_r;
+      repeat match goal with
+             | H : Forall _ (_ :: _) |- _ => inversion H; subst; clear H
+             end.
+    + (* union padding *)
+      match goal with
+      | IHk : pwf _ ?kk = true -> proot ?kk = "union"%string -> _ |- _ =>
+          destruct IHk as (pads & Hy & Hp); [assumption | assumption |]
+      end.
+      rewrite Hy. eexists. split; [reflexivity|].
+      rewrite forallb_app. rewrite Hp. apply pad_tree; assumption.
+    + (* ":" *)
+      match goal with
+      | Hw : pwf cell_productions ?kk = true, Hr : proot ?kk = _ |- _ => terminal kk Hw
+      end.
+      exists []. split; reflexivity.
+Qed.
+
+Definition geom_nt (s : string) : bool :=
+  existsb (String.eqb s) ["geometry_expr"; "geometry_term"; "geometry_factor"; "geometry_factory"]%string.
+Definition lvl_of (s : string) : lvl :=
+  if String.eqb s "geometry_expr" then LE else if String.eqb s "geometry_term" then LT else LF.
+
+Definition factory_shape (t : ptree) (g : gtree) : Prop :=
+  (exists pos n, pyield t = [SNum pos n] /\ g = GVal pos n) \/
+  (exists ye ge, strip (pyield t) = TLParen :: ye ++ [TRParen] /\ g = GParen ge /\ Derives LE ye ge /\
+                 not_cell_start (pyield t) = true).
+
+Definition gsound (t : ptree) : Prop :=
+  pwf cell_productions t = true -> geom_nt (proot t) = true -> uses_shortcut t = false ->
+  hash_neg (pyield t) = false ->
+  exists g, pact t = Some g /\ Derives (lvl_of (proot t)) (strip (pyield t)) g /\
+            ends_hash (pyield t) = false /\ pyield t <> [] /\
+            (proot t = "geometry_factory"%string -> factory_shape t g).
+
+Lemma hash_neg_flat : forall ks, hash_neg (flat_map pyield ks) = false ->
+  Forall (fun k => hash_neg (pyield k) = false) ks.
+Proof.
+  induction ks as [|k ks IH]; intros H; [constructor|].
+  cbn [flat_map] in H. apply hash_neg_app in H. destruct H as [H1 H2].
+  constructor; [exact H1 | apply IH; exact H2].
+Qed.
+
+Lemma node_facts : forall l r ks,
+  pwf cell_productions (PNode l r ks) = true -> uses_shortcut (PNode l r ks) = false ->
+  hash_neg (pyield (PNode l r ks)) = false ->
+  map proot ks = r /\
+  Forall (fun k => pwf cell_productions k = true) ks /\
+  Forall (fun k => uses_shortcut k = false) ks /\
+  Forall (fun k => hash_neg (pyield k) = false) ks.
+Proof.
+  intros l r ks Hwf Hs Hh.
+  destruct (node_kids _ _ _ _ Hwf) as [H1 H2]. split; [exact H1|]. split; [exact H2|]. split.
+  - cbn [uses_shortcut] in Hs. apply orb_false_iff in Hs. destruct Hs as [_ Hs].
+    apply Forall_forall. intros k Hk.
+    destruct (uses_shortcut k) eqn:E; [|reflexivity].
+    assert (existsb uses_shortcut ks = true) by (apply existsb_exists; exists k; split; assumption).
+    congruence.
+  - apply hash_neg_flat. exact Hh.
+Qed.
+
+Lemma pact_node : forall l r ks, pact (PNode l r ks) =
+  match rule_of l r, ks with
+  | Some RNumber, [PTok (SNum pos n)] => Some (act_number pos n)
+  | Some RParens, [_; e; _] => option_map act_parens (pact e)
+  | Some RParensPad, [_; _; e; _] => option_map act_parens (pact e)
+  | Some RFactorOfFactory, [f] => pact f
+  | Some RComplement, [_; f] => option_map act_complement (pact f)
+  | Some RTermOfFactor, [f] => pact f
+  | Some RTermPad, [a; _] => pact a
+  | Some RInterPad, [a; _; b] => opt2 act_intersection (pact a) (pact b)
+  | Some RInterImplicit, [a; b] => opt2 act_intersection (pact a) (pact b)
+  | Some RExprOfTerm, [a] => option_map act_expr_of_term (pact a)
+  | Some RUnion, [a; _; b] => opt2 act_union (pact a) (pact b)
+  | _, _ => None
+  end.
+Proof. reflexivity. Qed.
+
+(* start of every production case: the children, their facts and their induction hypotheses *)
+Ltac start_case :=
+  let ks := fresh "ks" in let IH := fresh "IH" in
+  let Hwf := fresh "Hwf" in let Hnt := fresh "Hnt" in let Hs := fresh "Hs" in let Hh := fresh "Hh" in
+  let Hroots := fresh "Hroots" in let Hk1 := fresh "Hk" in let Hk2 := fresh "Hk" in let Hk3 := fresh "Hk" in
+  intros ks IH Hwf Hnt Hs Hh;
+  destruct (node_facts _ _ _ Hwf Hs Hh) as (Hroots & Hk1 & Hk2 & Hk3);
+  kids ks Hroots;
+  repeat match goal with
+         | H : Forall _ (_ :: _) |- _ => inversion H; subst; clear H
+         | H : Forall _ [] |- _ => clear H
+         end;
+  rewrite pact_node;
+  match goal with
+  | |- context [rule_of ?l ?r] =>
+      let ru := fresh "ru" in let Hru := fresh "Hru" in
+      remember (rule_of l r) as ru eqn:Hru; vm_compute in Hru; subst ru
+  end;
+  cbn [pyield flat_map proot] in *; rewrite ?app_nil_r in *.
+
+Ltac use_ih k :=
+  match goal with
+  | IHk : gsound k, Hw : pwf cell_productions k = true, Hsk : uses_shortcut k = false,
+    Hhk : hash_neg (pyield k) = false, Hr : proot k = _ |- _ =>
+      let g := fresh "g" in let Ha := fresh "Hact" in let Hd := fresh "Hder" in
+      let He := fresh "Hend" in let Hn := fresh "Hne" in let Hf := fresh "Hfac" in
+      destruct (IHk Hw ltac:(rewrite Hr; reflexivity) Hsk Hhk) as (g & Ha & Hd & He & Hn & Hf);
+      rewrite Hr in Hd, Hf; cbn [lvl_of String.eqb Ascii.eqb Bool.eqb] in Hd; clear IHk
+  end.
+
+Lemma case_number : forall ks, Forall gsound ks -> gsound (PNode "geometry_factory" ["NUMBER"] ks).
+Proof.
+  start_case.
+  match goal with Hw : pwf cell_productions ?kk = true |- _ => terminal kk Hw end.
+  eexists. split; [reflexivity|]. split; [apply D_num|]. split; [reflexivity|]. split; [discriminate|].
+  intros _. left. eexists _, _. split; reflexivity.
+Qed.
+
+Lemma strip_paren : forall y, ends_hash y = false -> strip (SLP :: y ++ [SRP]) = TLParen :: strip y ++ [TRParen].
+Proof. intros y H. cbn [strip]. rewrite strip_app by exact H. reflexivity. Qed.
+
+Lemma ends_paren : forall y, ends_hash (SLP :: y ++ [SRP]) = false.
+Proof. intros y. rewrite ends_hash_cons by (destruct y; discriminate). rewrite ends_hash_app by discriminate. reflexivity. Qed.
+
+Ltac terminals :=
+  repeat match goal with
+         | Hw : pwf cell_productions ?kk = true, Hr : proot ?kk = String _ EmptyString |- _ => terminal kk Hw
+         | Hw : pwf cell_productions ?kk = true, Hr : proot ?kk = "COMPLEMENT"%string |- _ => terminal kk Hw
+         end;
+  cbn [pyield app] in *.
+
+Ltac ih_all := repeat match goal with IHk : gsound ?kk |- _ => first [use_ih kk | clear IHk] end.
+
+Lemma case_parens : forall ks, Forall gsound ks -> gsound (PNode "geometry_factory" ["("; "geometry_expr"; ")"] ks).
+Proof.
+  start_case. terminals. ih_all.
+  exists (GParen g). split; [rewrite Hact; reflexivity|].
+  rewrite strip_paren by exact Hend.
+  split; [apply D_paren; exact Hder|]. split; [apply ends_paren|]. split; [discriminate|].
+  intros _. right. exists (strip (pyield k0)), g. cbn [pyield flat_map app]. rewrite ?app_nil_r.
+  rewrite strip_paren by exact Hend. repeat split; exact Hder.
+Qed.
+
+Lemma case_parens_pad : forall ks, Forall gsound ks ->
+  gsound (PNode "geometry_factory" ["("; "padding"; "geometry_expr"; ")"] ks).
+Proof.
+  start_case. terminals.
+  match goal with Hp : proot ?kk = "padding"%string, Hw : pwf cell_productions ?kk = true |- _ =>
+    pose proof (pad_tree kk Hw Hp) as Hpad end.
+  ih_all.
+  exists (GParen g). split; [rewrite Hact; reflexivity|].
+  assert (Hst : strip (SLP :: pyield k0 ++ pyield k1 ++ [SRP]) = TLParen :: strip (pyield k1) ++ [TRParen]).
+  { cbn [strip]. rewrite strip_pads by exact Hpad. rewrite strip_app by exact Hend. reflexivity. }
+  rewrite Hst.
+  split; [apply D_paren; exact Hder|].
+  split; [rewrite app_assoc; apply ends_paren|]. split; [discriminate|].
+  intros _. right. exists (strip (pyield k1)), g. cbn [pyield flat_map app]. rewrite ?app_nil_r.
+  rewrite Hst. repeat split; exact Hder.
+Qed.
+
+Lemma case_factor_of_factory : forall ks, Forall gsound ks -> gsound (PNode "geometry_factor" ["geometry_factory"] ks).
+Proof.
+  start_case. ih_all.
+  exists g. split; [exact Hact|]. split; [exact Hder|]. split; [exact Hend|]. split; [exact Hne|].
+  intros H'; discriminate H'.
+Qed.
+
+Lemma case_term_of_factor : forall ks, Forall gsound ks -> gsound (PNode "geometry_term" ["geometry_factor"] ks).
+Proof.
+  start_case. ih_all.
+  exists g. split; [exact Hact|]. split; [apply D_f2t; exact Hder|]. split; [exact Hend|]. split; [exact Hne|].
+  intros H'; discriminate H'.
+Qed.
+
+Lemma case_expr_of_term : forall ks, Forall gsound ks -> gsound (PNode "geometry_expr" ["geometry_term"] ks).
+Proof.
+  start_case. ih_all.
+  exists (act_expr_of_term g). split; [rewrite Hact; reflexivity|]. split; [apply D_t2e; exact Hder|].
+  split; [exact Hend|]. split; [exact Hne|]. intros H'; discriminate H'.
+Qed.
+
+Lemma ends_hash_pads : forall a p, forallb is_pad p = true -> ends_hash a = false -> ends_hash (a ++ p) = false.
+Proof.
+  intros a p. revert a. induction p as [|x p IH]; intros a Hp Ha; [rewrite app_nil_r; exact Ha|].
+  simpl in Hp. apply andb_true_iff in Hp. destruct Hp as [Hx Hp].
+  replace (a ++ x :: p) with ((a ++ [x]) ++ p) by (rewrite <- app_assoc; reflexivity).
+  apply IH; [exact Hp|]. rewrite ends_hash_app by discriminate. destruct x; try discriminate; reflexivity.
+Qed.
+
+Lemma case_term_pad : forall ks, Forall gsound ks -> gsound (PNode "geometry_term" ["geometry_term"; "padding"] ks).
+Proof.
+  start_case.
+  match goal with Hp : proot ?kk = "padding"%string, Hw : pwf cell_productions ?kk = true |- _ =>
+    pose proof (pad_tree kk Hw Hp) as Hpad end.
+  ih_all.
+  exists g. split; [exact Hact|].
+  rewrite strip_app by exact Hend. rewrite (strip_pads_nil _ Hpad), app_nil_r.
+  split; [exact Hder|]. split; [apply ends_hash_pads; assumption|].
+  split; [destruct (pyield k); [congruence | discriminate]|]. intros H'; discriminate H'.
+Qed.
+
+Lemma app_nonempty_r : forall (A : Type) (a b : list A), b <> [] -> a ++ b <> [].
+Proof. intros A a b Hb H. apply app_eq_nil in H. destruct H; contradiction. Qed.
+
+Lemma case_inter_pad : forall ks, Forall gsound ks ->
+  gsound (PNode "geometry_term" ["geometry_term"; "padding"; "geometry_factor"] ks).
+Proof.
+  start_case.
+  match goal with Hp : proot ?kk = "padding"%string, Hw : pwf cell_productions ?kk = true |- _ =>
+    pose proof (pad_tree kk Hw Hp) as Hpad end.
+  ih_all.
+  exists (act_intersection g0 g). split; [rewrite Hact, Hact0; reflexivity|].
+  rewrite strip_app by assumption. rewrite strip_pads by exact Hpad.
+  split; [apply D_inter; assumption|].
+  split; [rewrite !ends_hash_app by (try apply app_nonempty_r; assumption); assumption|].
+  split; [apply app_nonempty_r, app_nonempty_r; assumption|]. intros H'; discriminate H'.
+Qed.
+
+Lemma case_inter_implicit : forall ks, Forall gsound ks ->
+  gsound (PNode "geometry_term" ["geometry_term"; "geometry_factory"] ks).
+Proof.
+  start_case. ih_all.
+  exists (act_intersection g0 g). split; [rewrite Hact, Hact0; reflexivity|].
+  rewrite strip_app by assumption.
+  split; [apply D_inter; assumption|].
+  split; [rewrite ends_hash_app by assumption; assumption|].
+  split; [apply app_nonempty_r; assumption|]. intros H'; discriminate H'.
+Qed.
+
+Lemma case_union : forall ks, Forall gsound ks ->
+  gsound (PNode "geometry_expr" ["geometry_expr"; "union"; "geometry_term"] ks).
+Proof.
+  start_case.
+  match goal with Hp : proot ?kk = "union"%string, Hw : pwf cell_productions ?kk = true |- _ =>
+    destruct (union_tree kk Hw Hp) as (pads & Hy & Hpad) end.
+  ih_all. rewrite Hy in *.
+  exists (act_union g0 g). split; [rewrite Hact, Hact0; reflexivity|].
+  rewrite strip_app by assumption. cbn [app strip]. rewrite strip_pads by exact Hpad.
+  split; [apply D_union; assumption|].
+  split; [rewrite ends_hash_app by discriminate; rewrite ends_hash_cons by (apply app_nonempty_r; assumption);
+          rewrite ends_hash_app by assumption; assumption|].
+  split; [apply app_nonempty_r; discriminate|]. intros H'; discriminate H'.
+Qed.
+
+Lemma case_complement : forall ks, Forall gsound ks ->
+  gsound (PNode "geometry_factor" ["COMPLEMENT"; "geometry_factory"] ks).
+Proof.
+  start_case. terminals. ih_all.
+  exists (act_complement g). split; [rewrite Hact; reflexivity|].
+  destruct (Hfac eq_refl) as [(pos & n & Hy & ->)|(ye & ge & Hst & -> & Hde & Hnc)].
+  - rewrite Hy in *. destruct pos; [|discriminate Hh].
+    split; [apply D_compl_num|]. split; [reflexivity|]. split; [discriminate|]. intros H'; discriminate H'.
+  - rewrite strip_hash_other by exact Hnc. rewrite Hst.
+    split; [apply D_compl_paren; exact Hde|].
+    split; [rewrite ends_hash_cons by exact Hne; exact Hend|]. split; [discriminate|]. intros H'; discriminate H'.
+Qed.
+
+Lemma geom_nt_lhs : forall l, geom_nt l = true -> geom_lhs l = true.
+Proof. intros l H. unfold geom_lhs, geom_nt in *. cbn [existsb] in *. rewrite H. apply orb_true_r. Qed.
+
+(* every parse tree of a geometry nonterminal over the generated productions (no shortcut production, no "#-n"):
+   the action is defined, and its tree is the one the model's derivation relation gives for the stripped tokens *)
+Theorem grammar_derives : forall t, gsound t.
+Proof.
+  induction t as [k|l r ks IH] using ptree_ind'.
+  - intros _ Hnt. destruct k as [? ?| | | | |[]]; discriminate Hnt.
+  - intros Hwf Hnt.
+    pose proof (node_rule _ _ _ Hwf (geom_nt_lhs _ Hnt)) as Hin.
+    cbn [map fst geom_rules In] in Hin. cbn [proot] in Hnt.
+    repeat (destruct Hin as [Hin|Hin];
+            [injection Hin as Hl Hr; rewrite <- Hl, <- Hr in *; clear Hl Hr|]); try contradiction;
+      try discriminate Hnt.
+    all: first [ apply (case_number ks IH Hwf eq_refl) | apply (case_parens ks IH Hwf eq_refl)
+               | apply (case_parens_pad ks IH Hwf eq_refl) | apply (case_factor_of_factory ks IH Hwf eq_refl)
+               | apply (case_term_of_factor ks IH Hwf eq_refl) | apply (case_expr_of_term ks IH Hwf eq_refl)
+               | apply (case_term_pad ks IH Hwf eq_refl) | apply (case_inter_pad ks IH Hwf eq_refl)
+               | apply (case_inter_implicit ks IH Hwf eq_refl) | apply (case_union ks IH Hwf eq_refl)
+               | apply (case_complement ks IH Hwf eq_refl)
+               | intros Hs; exfalso; vm_compute in Hs; discriminate Hs ].
+Qed.
+
+Theorem grammar_sound : forall t,
+  pwf cell_productions t = true -> proot t = "geometry_expr"%string ->
+  uses_shortcut t = false -> hash_neg (pyield t) = false ->
+  exists g, pact t = Some g /\ GDenotes (strip (pyield t)) (sem_tree g).
+Proof.
+  intros t Hwf Hr Hs Hh.
+  destruct (grammar_derives t Hwf ltac:(rewrite Hr; reflexivity) Hs Hh) as (g & Ha & Hd & _).
+  rewrite Hr in Hd. exists g. split; [exact Ha|]. apply derives_sound. exact Hd.
+Qed.
+
+(* a parse tree of "( 1 : -2 ) 3 #5 #(4)" with blanks, as CellParser's productions derive it *)
+Definition pt_num (pos : bool) (n : Z) : ptree := PNode "geometry_factory" ["NUMBER"] [PTok (SNum pos n)].
+Definition pt_sp : ptree := PNode "padding" ["SPACE"] [PTok (SPad PSpace)].
+Definition pt_f2t (f : ptree) : ptree := PNode "geometry_term" ["geometry_factor"] [PNode "geometry_factor" ["geometry_factory"] [f]].
+Definition ex_ptree : ptree :=
+  PNode "geometry_expr" ["geometry_term"]
+    [PNode "geometry_term" ["geometry_term"; "padding"; "geometry_factor"]
+       [PNode "geometry_term" ["geometry_term"; "padding"; "geometry_factor"]
+          [PNode "geometry_term" ["geometry_term"; "geometry_factory"]
+             [PNode "geometry_term" ["geometry_term"; "padding"]
+                [pt_f2t (PNode "geometry_factory" ["("; "padding"; "geometry_expr"; ")"]
+                           [PTok SLP; pt_sp;
+                            PNode "geometry_expr" ["geometry_expr"; "union"; "geometry_term"]
+                              [PNode "geometry_expr" ["geometry_term"]
+                                 [PNode "geometry_term" ["geometry_term"; "padding"] [pt_f2t (pt_num true 1); pt_sp]];
+                               PNode "union" ["union"; "padding"] [PNode "union" [":"] [PTok SColon]; pt_sp];
+                               PNode "geometry_term" ["geometry_term"; "padding"] [pt_f2t (pt_num false 2); pt_sp]];
+                            PTok SRP]);
+                 pt_sp];
+              pt_num true 3];
+           pt_sp;
+           PNode "geometry_factor" ["COMPLEMENT"; "geometry_factory"] [PTok SHash; pt_num true 5]];
+        pt_sp;
+        PNode "geometry_factor" ["COMPLEMENT"; "geometry_factory"]
+          [PTok SHash; PNode "geometry_factory" ["("; "geometry_expr"; ")"]
+                         [PTok SLP; PNode "geometry_expr" ["geometry_term"] [pt_f2t (pt_num true 4)]; PTok SRP]]]]%string.
+
+Lemma ex_ptree_ok :
+  pwf cell_productions ex_ptree = true /\ proot ex_ptree = "geometry_expr"%string /\
+  uses_shortcut ex_ptree = false /\ hash_neg (pyield ex_ptree) = false /\
+  strip (pyield ex_ptree) =
+    [TLParen; TLeaf true 1; TColon; TLeaf false 2; TRParen; TLeaf true 3; TCompl 5;
+     THash; TLParen; TLeaf true 4; TRParen]%Z /\
+  pact ex_ptree =
+    Some (GBin OInter
+            (GBin OInter
+               (GBin OInter (GParen (GBin OUnion (GShift (GVal true 1)) (GVal false 2))) (GVal true 3))
+               (GCompl (GVal true 5)))
+            (GCompl (GParen (GShift (GVal true 4)))))%Z.
+Proof. vm_compute. repeat split; reflexivity. Qed.
+
+(* ------------------------------------------------------------------ the operators, as stated in the property *)
+Lemma ops_sem : forall a b,
+  sem_hs (hs_and a b) = BAnd (sem_hs a) (sem_hs b) /\
+  sem_hs (hs_or a b) = BOr (sem_hs a) (sem_hs b) /\
+  sem_hs (hs_not a) = BNot (sem_hs a).
+Proof. intros; repeat split; reflexivity. Qed.
+
+Lemma units_sem : forall n,
+  sem_hs (surf_pos n) = BSurf true n /\ sem_hs (surf_neg n) = BSurf false n /\
+  beq (sem_hs (cell_compl n)) (BCompl n).
+Proof. intros n; repeat split; try reflexivity. apply beq_notnot. Qed.
+
+(* &= and |= are & and | when the right spine of the left operand only has that operator *)
+Lemma aug_spine : forall op a b, right_spine op (sem_hs a) ->
+  beq (sem_hs (fst (hs_iop op a b))) (bop op (sem_hs a) (sem_hs b)).
+Proof. intros op a b H. rewrite iop_sem. apply graft_spine. exact H. Qed.
+
+(* ... and not in general: (s1 | s2) &= s3 is s1 | (s2 & s3) *)
+Lemma aug_differs :
+  exists a b, reachable a /\ reachable b /\
+    ~ beq (sem_hs (fst (hs_iop OInter a b))) (BAnd (sem_hs a) (sem_hs b)).
+Proof.
+  exists (hs_or (surf_pos 1) (surf_pos 2)), (surf_pos 3).
+  split; [apply R_or; apply R_surf|]. split; [apply R_surf|].
+  intros H. specialize (H env1). vm_compute in H. discriminate H.
+Qed.
+
+(* the operator setter: UNION is always safe, INTERSECTION exactly when no kept child is a bare union *)
+Definition setop_safe (a : hs) : bool :=
+  match a with
+  | HBin _ l r (Some (ll, rl)) => andb (lk_ok OInter l ll) (lk_ok OInter r rl)
+  | _ => true
+  end.
+
+Lemma write_setop_partial : forall a op h, inv a = true -> hs_set_op a op = Some h ->
+  (op = OInter -> setop_safe a = true) ->
+  exists e, GDenotes (written_tokens h) e /\ beq e (sem_hs h).
+Proof.
+  intros a op h Ha Hset Hsafe. apply write_correct.
+  destruct op.
+  - rewrite (inv_set_op_inter a h Ha Hset). exact (Hsafe eq_refl).
+  - eapply inv_set_op_union; eauto.
+Qed.
+
+Lemma ex_setop_safe :
+  exists ts t h, Derives LE ts t /\ hs_set_op (parse_input_node t) OInter = Some h /\
+                 setop_safe (parse_input_node t) = true /\ is_union (parse_input_node t) = true.
+Proof.
+  (* "(1:2):3" : the union on the left is in parentheses *)
+  destruct (tparse [TLParen; TLeaf true 1; TColon; TLeaf true 2; TRParen; TColon; TLeaf true 3]%Z) as [t|] eqn:E;
+    [|discriminate E].
+  pose proof (tparse_sound _ _ E) as D. vm_compute in E. inversion E; subst t; clear E.
+  eexists _, _, _. split; [exact D|]. repeat split.
+Qed.
